@@ -46,7 +46,13 @@ def generate(seed, tier):
     merges = ("none", "none", "default", "optimize", "optimize", "clear", "custom")
     # "churn" runs (30%): many tiny transactions that all replace segment files, against readers
     # that mostly (re)open - the window between reading a TOC and opening the files it names
-    churn = mrng.random() < 0.3
+    mode = mrng.random()
+    churn = mode < 0.3
+    # "dels" runs (20%): segments survive (no merging) and collect deletions commit after
+    # commit, against readers that refresh and probe - recycled sub-readers must pick up every one
+    dels = 0.3 <= mode < 0.5
+    if dels:
+        merges = ("none", "none", "none", "default")
     if churn:
         merges = ("optimize", "optimize", "clear", "custom", "default")
         nreaders = mrng.randint(2, 3)
@@ -57,13 +63,21 @@ def generate(seed, tier):
             body = []
             for _ in range(wrng.randint(1, 2) if churn else wrng.randint(1, 4)):
                 c = wrng.random()
-                if c < 0.6:
+                if dels and c < 0.75:
+                    if c < 0.45:
+                        body.append(["del_term", "k", u"k%03d" % wrng.randrange(dg.nkeys)])
+                    else:
+                        body.append(["update", dg.doc()])
+                elif c < 0.6:
                     body.append(["add", dg.doc()])
                 elif c < 0.8:
                     body.append(["update", dg.doc()])
                 else:
                     body.append(["del_term", "k", u"k%03d" % wrng.randrange(dg.nkeys)])
-            if wrng.random() < 0.1:
+            if dels and wi == 0 and not txs:
+                # the first segment is big enough to lose documents commit after commit
+                body = [["add", dg.doc()] for _ in range(wrng.randint(5, 10))]
+            if wrng.random() < 0.1 and not (dels and not txs):
                 end = ["cancel"]
             else:
                 m = wrng.choice(merges)
@@ -80,6 +94,10 @@ def generate(seed, tier):
             c = wrng.random()
             if churn and c < 0.75:
                 ops.append([wrng.choice(("open", "open", "refresh", "probe", "close"))])
+            elif dels and c < 0.85:
+                ops.append([wrng.choice(("open", "refresh", "refresh", "probe", "probe", "utd", "await", "await"))])
+            elif c < 0.1:
+                ops.append(["await"])
             elif c < 0.2:
                 ops.append(["open"])
             elif c < 0.55:
@@ -92,6 +110,8 @@ def generate(seed, tier):
                 ops.append(["close"])
             else:
                 ops.append(["sleep", wrng.choice((0.01, 0.05, 0.3))])
+        if dels:
+            ops = [["await"]] + ops
         if ops[0][0] != "open":
             ops.insert(0, ["open"])
         if wrng.random() < 0.5:
